@@ -4,6 +4,7 @@ CONSTANTS
   BoundModes <- BM1
   MenuKind = "general"
   MaxDepth = 3
+  StartChain = FALSE
   Emit = TRUE
 INVARIANT BagMatches
 INVARIANT ListMatches
